@@ -13,20 +13,31 @@ if os.path.exists(p):
 checks, na, engines = [], [], {}
 for pr in props:
     pid = pr["id"]
-    if os.path.exists(os.path.join(V, "checks", f"{pid}.py")):
+    evp = os.path.join(V, "evidence", f"{pid}.json")
+    clean = False
+    if os.path.exists(evp):
+        try:
+            ev = json.load(open(evp))
+            clean = not ev.get("violations") and ev["coverage"].get("obligations") == ev["coverage"].get("discharged")
+        except Exception:
+            clean = False
+    if os.path.exists(os.path.join(V, "checks", f"{pid}.py")) and clean:
         s = hvlib.load_spec(pid)
+        parts = s.get("parts") or [s]
+        proj = s.get("lean_project") or next((q["lean_project"] for q in parts if q.get("lean_project")), "none")
+        harn = s.get("harness") or next((q["harness"] for q in parts if q.get("harness")), None)
         checks.append({
             "property_id": pid,
             "quick_cmd": f"./check {pid} --tier quick",
             "thorough_cmd": f"./check {pid} --tier thorough",
             "evidence_file": f"/verif/evidence/{pid}.json",
             "replay_cmd_template": f"./check {pid} --replay {{path}}",
-            "engine": s["lean_project"],
+            "engine": proj,
             "level_claimed": {"category": s.get("level", "proof"), "text": s["level_text"], "design_ref": s.get("design_ref", "DESIGN.md §5")},
             "level_note": s["level_note"],
             "technique": s.get("technique", "Lean 4 proof + correspondence"),
         })
-        e = engines.setdefault(s["lean_project"], {"name": s["lean_project"], "path": f"lean/{s['lean_project']} + harness/{s.get('harness')}",
+        e = engines.setdefault(proj, {"name": proj, "path": f"lean/{proj} + harness/{harn}",
                                                     "serves_properties": [], "kind_free_text": "Lean 4 model + theorems, native model driver, Rust differential harness against /repo"})
         e["serves_properties"].append(pid)
     else:
